@@ -321,7 +321,96 @@ class TestTemp(ast.NodeTransformer):
                 setattr(n, fld, self._fix(b))
         return n
 
-T = {'negcmp': NegCompare, 'splitisi': SplitIsinstance, 'splitwith': SplitWith, 'mergewith': MergeWith, 'tern2if': TernaryToIf, 'if2tern': IfToTernary, 'kwtimeout': KwTimeout, 'postimeout': PosTimeout, 'earlycont': EarlyContinue, 'rettern': RetTern, 'retif': RetIf, 'demorgan': DeMorgan, 'whilecond': WhileCond, 'swapeq': SwapEq, 'splitin': SplitIn, 'dictlit': DictLit, 'unchain': Unchain, 'untuple': Untuple, 'orassign': OrAssign, 'splitexcept': SplitExcept, 'retnone': RetNone, 'elseremove': ElseRemove, 'elseadd': ElseAdd, 'comp2loop': Comp2Loop, 'whiletrue': WhileTrue, 'elsepass': ElsePass, 'testtemp': TestTemp}
+class With2Acq(ast.NodeTransformer):
+    """with L: B  ->  L.acquire(); try: B finally: L.release()   (L a name / attribute whose last part mentions lock, mutex, cond, not_full, not_empty)"""
+    def visit_With(self, n):
+        self.generic_visit(n)
+        if len(n.items) == 1 and n.items[0].optional_vars is None and isinstance(n.items[0].context_expr, (ast.Name, ast.Attribute)):
+            e = n.items[0].context_expr
+            last = e.id if isinstance(e, ast.Name) else e.attr
+            if any(w in last.lower() for w in ('lock', 'mutex', 'cond', 'not_full', 'not_empty', 'notfull')):
+                count[0] += 1
+                acq = ast.Expr(value=ast.Call(func=ast.Attribute(value=copy.deepcopy(e), attr='acquire', ctx=ast.Load()), args=[], keywords=[]))
+                rel = ast.Expr(value=ast.Call(func=ast.Attribute(value=copy.deepcopy(e), attr='release', ctx=ast.Load()), args=[], keywords=[]))
+                return [acq, ast.Try(body=n.body, handlers=[], orelse=[], finalbody=[rel])]
+        return n
+
+
+class Commute(ast.NodeTransformer):
+    def visit_BinOp(self, n):
+        self.generic_visit(n)
+        if isinstance(n.op, (ast.Mult, ast.Add)) and (isinstance(n.left, ast.Constant) != isinstance(n.right, ast.Constant)) and not any(isinstance(x, ast.Constant) and isinstance(x.value, (str, bytes)) for x in (n.left, n.right)) and not any(isinstance(x, (ast.List, ast.Tuple, ast.JoinedStr, ast.Call)) for x in (n.left, n.right)):
+            count[0] += 1
+            return ast.BinOp(left=n.right, op=n.op, right=n.left)
+        return n
+
+
+class Ret2Tern(ast.NodeTransformer):
+    """if c: return a  /  return b   ->   return a if c else b"""
+    def _fix(self, body):
+        out = []
+        i = 0
+        while i < len(body):
+            st = body[i]
+            nx = body[i + 1] if i + 1 < len(body) else None
+            if isinstance(st, ast.If) and not st.orelse and len(st.body) == 1 and isinstance(st.body[0], ast.Return) and st.body[0].value is not None and isinstance(nx, ast.Return) and nx.value is not None:
+                count[0] += 1
+                out.append(ast.Return(value=ast.IfExp(test=st.test, body=st.body[0].value, orelse=nx.value)))
+                i += 2
+                continue
+            out.append(st)
+            i += 1
+        return out
+    def generic_visit(self, n):
+        super().generic_visit(n)
+        for fld in ('body', 'orelse', 'finalbody'):
+            b = getattr(n, fld, None)
+            if isinstance(b, list) and b and isinstance(b[0], ast.stmt):
+                setattr(n, fld, self._fix(b))
+        return n
+
+class NoWait(ast.NodeTransformer):
+    """q.get_nowait() -> q.get(block=False); q.put_nowait(x) -> q.put(x, block=False)"""
+    def visit_Call(self, n):
+        self.generic_visit(n)
+        if isinstance(n.func, ast.Attribute) and n.func.attr in ('get_nowait', 'put_nowait') and not n.keywords:
+            count[0] += 1
+            return ast.Call(func=ast.Attribute(value=n.func.value, attr=n.func.attr[:3], ctx=ast.Load()), args=n.args, keywords=[ast.keyword(arg='block', value=ast.Constant(False))])
+        return n
+
+
+class RaiseCall(ast.NodeTransformer):
+    """raise X -> raise X()   (X a plain name or dotted name)"""
+    def visit_Raise(self, n):
+        if n.exc is not None and isinstance(n.exc, (ast.Name, ast.Attribute)) and n.cause is None:
+            nm = n.exc.id if isinstance(n.exc, ast.Name) else n.exc.attr
+            if nm[:1].isupper():
+                count[0] += 1
+                return ast.Raise(exc=ast.Call(func=n.exc, args=[], keywords=[]), cause=None)
+        return n
+
+
+class RaiseBare(ast.NodeTransformer):
+    """raise X() -> raise X"""
+    def visit_Raise(self, n):
+        if isinstance(n.exc, ast.Call) and not n.exc.args and not n.exc.keywords and n.cause is None and isinstance(n.exc.func, (ast.Name, ast.Attribute)) and (n.exc.func.id if isinstance(n.exc.func, ast.Name) else n.exc.func.attr)[:1].isupper():
+            count[0] += 1
+            return ast.Raise(exc=n.exc.func, cause=None)
+        return n
+
+
+class AWith2Acq(ast.NodeTransformer):
+    def visit_AsyncWith(self, n):
+        self.generic_visit(n)
+        if len(n.items) == 1 and n.items[0].optional_vars is None and isinstance(n.items[0].context_expr, (ast.Name, ast.Attribute)):
+            e = n.items[0].context_expr
+            count[0] += 1
+            acq = ast.Expr(value=ast.Await(value=ast.Call(func=ast.Attribute(value=copy.deepcopy(e), attr='acquire', ctx=ast.Load()), args=[], keywords=[])))
+            rel = ast.Expr(value=ast.Call(func=ast.Attribute(value=copy.deepcopy(e), attr='release', ctx=ast.Load()), args=[], keywords=[]))
+            return [acq, ast.Try(body=n.body, handlers=[], orelse=[], finalbody=[rel])]
+        return n
+
+T = {'negcmp': NegCompare, 'splitisi': SplitIsinstance, 'splitwith': SplitWith, 'mergewith': MergeWith, 'tern2if': TernaryToIf, 'if2tern': IfToTernary, 'kwtimeout': KwTimeout, 'postimeout': PosTimeout, 'earlycont': EarlyContinue, 'rettern': RetTern, 'retif': RetIf, 'demorgan': DeMorgan, 'whilecond': WhileCond, 'swapeq': SwapEq, 'splitin': SplitIn, 'dictlit': DictLit, 'unchain': Unchain, 'untuple': Untuple, 'orassign': OrAssign, 'splitexcept': SplitExcept, 'retnone': RetNone, 'elseremove': ElseRemove, 'elseadd': ElseAdd, 'comp2loop': Comp2Loop, 'whiletrue': WhileTrue, 'elsepass': ElsePass, 'testtemp': TestTemp, 'with2acq': With2Acq, 'commute': Commute, 'ret2tern': Ret2Tern, 'nowait': NoWait, 'raisecall': RaiseCall, 'raisebare': RaiseBare, 'awith2acq': AWith2Acq}
 
 
 def apply(name):
